@@ -261,6 +261,27 @@ def all_obligations():
                  replayable=True, replay_src='decode.c',
                  assumed=['the IBWT list is the linear list decode() builds (node i -> node i+1); the meaning of the saved fields is the stated representation contract']))
 
+    # ---------------- encode.c sections extracted verbatim on every run (contracts/encode.c.spec): C02 O2.5
+    XS = ['section extraction: the lines are copied verbatim from the current source; the rest of the enclosing function is dropped and replaced by the stated context assumptions',
+          'encoder_state stand-in: member u.s with its real type (__typeof__), without the union overlay with bucket[]']
+    for slot, tier in ((0, 'quick'), (3, 'thorough')):
+        A(Ob(name=f'encode.dummy_table.slot{slot}', props=['C02', 'C20', 'C08'], kind='lemma', harness='h_encode_sections.c', entry='h_dummy_table', defines={'DT_SLOT': str(slot)}, tier=tier, solver='cadical',
+             what='generate_prefix_code(), single-table blocks: for EVERY alphabet size 3..258 the dummy second table has lengths within 1..20, Kraft sum exactly 1 (complete), '
+                  'one +1 step at most, and the cost added equals its transmitted size',
+             functions=['generate_prefix_code (dummy-table section)'], flags=['--unwind', '262', '--unwinding-assertions'], timeout=1200,
+             expect=['dummy table: the code is complete', 'dummy table: every code length is within'], assumed=XS, replayable=True))
+    A(Ob(name='encode.padding', props=['C02', 'C08'], kind='lemma', harness='h_encode_sections.c', entry='h_padding',
+         what='encode(): for every block bit cost and selector count the padding makes the block a whole number of bytes using 0-3 dummy delta steps and at most one extra 1-bit selector; selector count <= 18002',
+         functions=['encode (padding section)'], flags=['--unwind', '8', '--unwinding-assertions'], expect=['padding: the block becomes a whole number of bytes', 'padding: the selector count stays within'], assumed=XS, replayable=True))
+    for c in range(6):
+        A(Ob(name=f'encode.selector_mtf.c{c}', props=['C02', 'C08'], kind='lemma', harness='h_encode_sections.c', entry='h_selector_mtf', defines={'SMTF_C': str(c)},
+             what='encode(): the packed-nibble move-to-front step, for every list (all 720 permutations) and this selected table: value sent = position of the table, list updated by move-to-front; '
+                  '__builtin_ctz argument non-zero, no undefined shift',
+             functions=['encode (selector MTF section)'], flags=['--unwind', '8', '--unwinding-assertions'], expect=['selector MTF: the value sent is the position', 'selector MTF: the table moves to the front'], assumed=XS, replayable=True))
+    A(Ob(name='encode.first_length', props=['C02'], kind='lemma', harness='h_encode_sections.c', entry='h_first_length',
+         what='transmit(): for every first code length 1..20 and padding 0..3 the 5-bit start value of the first table stays within 1..20 and lies exactly tree_pad steps from the real length',
+         functions=['transmit (first-length section)'], flags=['--unwind', '8', '--unwinding-assertions'], expect=['first table: the 5-bit start value stays within'], assumed=XS, replayable=True))
+
     # ---------------- encode.c collect(): one-step conformance with the greedy packing rule (C04 O4.1, C01 O1.1, C02 O2.4)
     def collect_states(maxcap):
         for cap in range(1, maxcap + 1):
